@@ -68,9 +68,15 @@ def handler(level, hk, rk, he):
     raise ValueError(hk)
 
 
-def chain_prog(depth, rk, sw, hks, he, followups=True, pre=None):
-    """hks: handler kind per level 0..depth (0 = main)."""
+MODNAMES = ["模甲", "模乙", "模丙"]
+
+
+def chain_prog(depth, rk, sw, hks, he, followups=True, pre=None, levels=None):
+    """hks: handler kind per level 0..depth (0 = main).
+    levels: module of F1..Fd (0 = main file, k = k-th module file; non-decreasing, each step to the same or the next
+    module) - the call chain then crosses module boundaries; None = everything in the main file."""
     funcs = []
+    lv = list(levels) if levels else [0] * depth
     raise_stmt = RAISES[rk]()
     if pre:
         raise_stmt["pre"] = pre
@@ -82,7 +88,7 @@ def chain_prog(depth, rk, sw, hks, he, followups=True, pre=None):
         else:
             body += [decl("R%d" % lvl, call("F%d" % (lvl + 1), var("L%d" % lvl))), disp(s("F%d-out" % lvl), var("R%d" % lvl)),
                      ret(bin_("add", var("R%d" % lvl), num(1)))]
-        funcs.append(func("F%d" % lvl, ["X"], body, handler(lvl, hks[lvl], rk, he)))
+        funcs.append(func("F%d" % lvl, ["X"], body, handler(lvl, hks[lvl], rk, he), mod=lv[lvl - 1]))
     main = [decl("M", num(5)), mark("start")]
     if depth == 0:
         main += wrap_site(raise_stmt, sw, rk) + [mark("main-dead")]
@@ -91,7 +97,18 @@ def chain_prog(depth, rk, sw, hks, he, followups=True, pre=None):
         if followups:
             main += [decl("S", call("F1", bin_("add", var("M"), num(1)))), disp(s("S"), var("S")), mark("probe"), ex(var("L1"))]
     if sw in EXPR_SITES:
-        funcs = funcs + raise_funcs(rk)
-    p = prog(main, funcs=funcs, classes=CLASSES, catches=handler(0, hks[0], rk, he))
-    p["tag"] = "d%d/%s/%s/%s/%s" % (depth, rk, sw, ",".join(hks), he)
+        rf = raise_funcs(rk)
+        for f in rf: f["mod"] = lv[depth - 1] if depth else 0
+        funcs = funcs + rf
+    mods, imports = [], []
+    if levels and any(lv):
+        # after the call: a method of the MAIN file must still be callable (the caller's module is what it was)
+        if depth and followups:
+            main.insert(len(main) - 2, disp(s("HM"), call("HM")))
+        funcs = funcs + [func("HM", [], [ret(num(77))])]
+        nm = max(lv)
+        mods = [dict(name=MODNAMES[k], imports=sorted(set(b for a, b in zip(lv, lv[1:]) if a == k + 1 and b != a))) for k in range(nm)]
+        imports = sorted(set(([lv[0]] if lv[0] else []) + [b for a, b in zip(lv, lv[1:]) if a == 0 and b != 0]))
+    p = prog(main, funcs=funcs, classes=CLASSES, catches=handler(0, hks[0], rk, he), mods=mods, imports=imports)
+    p["tag"] = "d%d/%s/%s/%s/%s" % (depth, rk, sw, ",".join(hks), he) + ("/mods" + "".join(str(x) for x in lv) if levels and any(lv) else "")
     return p
